@@ -40,7 +40,7 @@ import (
 func init() {
 	h.Register(&h.Prop{
 		ID:   "C17",
-		Rule: "disp: random serialised histories over the real dispatch+packPipe (≤60 ops: sends, Replies, replies in any order, duplicates, unknown nonces, cancels, close); obj: copies of one request object; net: real node vs scripted peers, 1..200 concurrent requests over 1..4 connections, reordered/delayed/dropped/duplicated/late replies, cancels, deadline, connection closed mid-flight, refusing and silent peer; non-trivial = ≥2 requests in flight or a fault (drop/dup/unknown/cancel/close/refuse/silent); distinct = distinct case line",
+		Rule: "hist: a real node and 1..3 peers (real nodes behind a cuttable relay / harness endpoints) driven through connection histories (requests both ways, answers in any order and late, DisConnectTo, second connections, cuts, restarts of either side, contexts ending), then every connection ended and every peer asked again both ways; disp: random serialised histories over the real dispatch+packPipe (≤60 ops: sends, Replies, replies in any order, duplicates, unknown nonces, cancels, close); obj: copies of one request object; net: real node vs scripted peers, 1..200 concurrent requests over 1..4 connections, reordered/delayed/dropped/duplicated/late replies, cancels, deadline, connection closed mid-flight, refusing and silent peer; non-trivial = ≥2 requests in flight or a fault (drop/dup/unknown/cancel/close/refuse/silent); distinct = distinct case line",
 		Gen:  gen,
 		Exec: exec,
 	})
@@ -67,6 +67,8 @@ func exec(line string) (res h.Result) {
 		return execObj(w[1])
 	case "net":
 		return execNet(w[1], w[2])
+	case "hist":
+		return execHist(w[1], w[2])
 	}
 	panic("bad case line")
 }
@@ -460,6 +462,8 @@ func execChild(line string, w []string) (res h.Result) {
 		res.Class, res.Nontrivial = netClass(w[1], w[2])
 	case "obj":
 		res.Class, res.Nontrivial = "obj", strings.Count(w[1], "f") >= 2
+	case "hist":
+		res.Class, res.Nontrivial = histClass(w[1], w[2])
 	default:
 		ops := split(w[1])
 		sends, faults := 0, 0
@@ -974,7 +978,8 @@ func execNet(peersS, reqsS string) (res h.Result) {
 		p.mu.Lock()
 		for si, ns := range p.nonces {
 			for j, k := range ns {
-				if k != uint64(j) {
+				// the nonces of a connection count up from its (random, 2071f1f) starting value
+				if k != ns[0]+uint64(j) {
 					add(fmt.Sprintf("nonce-not-counter: peer %d session %d saw nonces %v", p.idx, si, ns))
 					break
 				}
@@ -1005,6 +1010,8 @@ func sigRank(v string) int {
 
 func gen(tier string, rng *h.Rng, emit func(string)) {
 	thorough := tier == "thorough"
+	// connection histories first: they are what finds a defect of the server-level tables
+	genHist(tier, h.NewRng(rng.U64()), emit)
 	// directed dispatch histories
 	for _, l := range []string{
 		"disp -",
